@@ -1127,6 +1127,28 @@ theorem mixF_is_the_source (name birth death ratio : Dbl) :
   unfold mixF Fn.evalF Generated.srcIndividual
   simp only [List.find?, AExp.evalF, litF, if_true]
 
+/-- **Operand order** of `(*DateNode).Similarity`, bit for bit -/
+theorem dateNodeSimilarityF_symm (l r : Option Sim.DateR) (m : Dbl) :
+    dateNodeSimilarityF l r m = dateNodeSimilarityF r l m := by
+  unfold dateNodeSimilarityF
+  cases l <;> cases r <;> simp [dateSimilarity_symm]
+
+/-- **Missing information scores exactly the neutral 0.5** in float64 (`half` is the binary64
+    0.5 itself, no rounding involved) -/
+theorem dateNodeSimilarityF_missing (l r : Option Sim.DateR) (m : Dbl) (h : l = none ∨ r = none) :
+    dateNodeSimilarityF l r m = half := by
+  unfold dateNodeSimilarityF
+  rcases h with h | h
+  · subst h; cases r <;> rfl
+  · subst h; cases l <;> rfl
+
+/-- **Identity** of `(*DateNode).Similarity`: a date against itself scores one -/
+theorem dateNodeSimilarityF_self (l : Sim.DateR) (m : Dbl) :
+    F64.le one (dateNodeSimilarityF (some l) (some l) m) ∧
+    F64.le (dateNodeSimilarityF (some l) (some l) m) one := by
+  unfold dateNodeSimilarityF
+  exact dateSimilarity_self _ m
+
 /-! ### The float64 `Minimum()` that selects the estimated dates -/
 
 /-- the fold of `minimumRangeF`: the result is the accumulator or an element of the list, and no
